@@ -118,7 +118,10 @@ class UDPObject(CommsObject):
             bool: Success of Closing the Channel
         """
         if self.comm_handle is not None and self.open == True:
-            self.comm_handle.shutdown(socket.SHUT_RDWR)
+            try:
+                self.comm_handle.shutdown(socket.SHUT_RDWR)
+            except OSError:
+                pass
             self.comm_handle.close()
             self.open = False
             return True 
